@@ -125,6 +125,12 @@ def big_items(rng):
     out.append(('big_data', data_bytes(rbytes(rng, 40000), True, True, False, True)))
     out.append(('big_data_nolen', data_bytes(rbytes(rng, 70000), False, True, True, False, None, 2, b'\x00\x00')))
     out.append(('big_data_65535', data_bytes(rbytes(rng, 65535 - 10), True, True, False, False)))
+    # very many records in one body (a bound on the number of AVPs is not a bound the format has)
+    seq = avp_rec(39, b'')
+    for n in (255, 256, 257, 300, 1000):
+        body = mt_record(rng) + seq * n
+        out.append(('many_avps_%d' % n, ctrl_bytes(body + avp_rec(9, be(rng.getrandbits(16), 2)))))
+        out.append(('many_avps_bad_%d' % n, ctrl_bytes(body + avp_rec(40, b'xy') + seq)))
     # Offset Size near 65535: header + pad exceeds what a 16-bit sum (or the Length field) can hold
     for osz in (65521, 65526, 65530, 65535):
         for (L, S) in ((False, False), (False, True), (True, False), (True, True)):
@@ -151,6 +157,12 @@ def dec_corpus(rng, budget, thorough=False):
             out.append(('prefix_d', p))
     out += noncanonical(rng, budget // 12)
     out += big_items(rng)
+    # the same message twice with a neighbour that differs only inside one long value (adjacent cases run on one thread)
+    for _ in range(max(4, budget // 400)):
+        t = rng.choice([7, 8, 8, 11, 21, 22, 23, 30, 33, 37])
+        v = (b'vendor-' + bytes(rng.choice(b'abcdefghij') for _ in range(rng.randrange(20, 60))) + b'-tail0001') if t in (8, 21, 22, 23) else rbytes(rng, rng.randrange(24, 80))
+        for w in [v] + near_duplicates(rng, v):
+            out.append(('neighbours', ctrl_bytes(mt_record(rng) + avp_rec(t, w))))
     while len(out) < budget:
         c = rng.random()
         if c < 0.25:
@@ -173,6 +185,23 @@ def dec_corpus(rng, budget, thorough=False):
             base[0:2] = be(rng.getrandbits(16), 2)
             out.append(('randflags', bytes(base)))
     return out
+
+
+def near_duplicates(rng, b):
+    """octet strings that a weak fingerprint (length, first/last octets, sum, xor, a 31-polynomial) cannot tell from b"""
+    out = []
+    n = len(b)
+    if n >= 24:
+        mid = bytearray(b)
+        i = rng.randrange(9, n - 9)
+        mid[i] = (mid[i] + 1 + rng.randrange(254)) & 0xff if mid[i] < 0x80 else mid[i] ^ 1
+        out.append(bytes(mid))
+    if n >= 4:
+        sw = bytearray(b)
+        i, j = rng.randrange(n), rng.randrange(n)
+        sw[i], sw[j] = sw[j], sw[i]
+        out.append(bytes(sw))
+    return [x for x in out if x != b]
 
 
 def avps_corpus(rng, budget, thorough=False):
